@@ -203,6 +203,31 @@ func vpH_C09_chg_Activity() {
 	vpC09Chg(vpTypeIndex("Activity"), []string{"Actor", "Object", "Target", "Result", "Origin", "Instrument"})
 }
 
+// a changed text is detected also when one side repeats an entry
+func vpH_C09_chg_text_dups() {
+	t1 := LangRef([]byte{vpRange('a', 'b'), 'x'})
+	t2 := LangRef([]byte{vpRange('a', 'b'), 'x'})
+	v1, v2 := Content{vpRange('0', '1')}, Content{vpRange('0', '1')}
+	vpAssume(t1 != t2 || v1[0] != v2[0])
+	dup := NaturalLanguageValues{{Ref: t1, Value: v1}, {Ref: t1, Value: v1}}
+	two := NaturalLanguageValues{{Ref: t1, Value: v1}, {Ref: t2, Value: v2}}
+	var x, y Item
+	switch vpChoice(4) {
+	case 0:
+		x, y = &Object{ID: "https://h.ex/i", Type: NoteType, Name: dup}, &Object{ID: "https://h.ex/i", Type: NoteType, Name: two}
+	case 1:
+		x, y = &Object{ID: "https://h.ex/i", Type: NoteType, Summary: dup}, &Object{ID: "https://h.ex/i", Type: NoteType, Summary: two}
+	case 2:
+		x, y = &Object{ID: "https://h.ex/i", Type: NoteType, Content: dup}, &Object{ID: "https://h.ex/i", Type: NoteType, Content: two}
+	default:
+		x, y = &Link{Type: MentionType, Href: "https://h.ex/l", Name: dup}, &Link{Type: MentionType, Href: "https://h.ex/l", Name: two}
+	}
+	vpAssert("text-dups/changed-unequal", !ItemsEqual(x, y))
+	vpAssert("text-dups/changed-unequal-rev", !ItemsEqual(y, x))
+	vpAssert("text-dups/reflexive", ItemsEqual(x, x) && ItemsEqual(y, y))
+	vpReach("end")
+}
+
 func vpH_C09_chg_id() {
 	ti := vpChoice(3)
 	x := vpNew(ti)
